@@ -66,6 +66,8 @@ SPECS = {
     "spiftool_hex_dump": {"buff": ("buf", "count")},
     "spiftool_temp_file": {"ftemplate": ("buf", "len")},                       # ftemplate holds `len` bytes
     "memrec_add_var": {"filename": ("cstr",)},
+    # called from spifopt_parse with the index of an existing argument word: argv has argc words and its NULL slot
+    "handle_arglist": {"argv": ("ptrs", "argc"), "val_ptr": ("cstr",), "_pre": [({"i": 1}, 0), ({"argc": 1, "i": -1}, -1)]},
 }
 
 
@@ -119,7 +121,7 @@ def entry_states(fn, max_cases=8, alias=True):
                             nx2.append(s2)
                     cur = nx2
                 nxt.extend(cur)
-            elif p.get("tp") and p["n"] in SPECS.get(fn.name, {}):
+            elif p.get("tp") and p["n"] in SPECS.get(fn.name, {}) and p["n"] != "_pre":
                 spec = SPECS[fn.name][p["n"]]
                 if spec[0] == "cstr":
                     n_ = fresh(p["n"] + "_strlen")
@@ -127,6 +129,8 @@ def entry_states(fn, max_cases=8, alias=True):
                     rid = st.new_region("cstr", Lin.sym(n_) + 1, Lin.sym(n_), "string " + p["n"])
                     st.regions[rid].nul = Lin.sym(n_)
                     st.env[p["d"]] = P(rid, 0)
+                elif spec[0] == "ptrs":
+                    st.env[p["d"]] = ("ptrs-of", spec[1])
                 else:
                     st.env[p["d"]] = ("buf-of", spec[1])
                 nxt.append(st)
@@ -176,6 +180,28 @@ def entry_states(fn, max_cases=8, alias=True):
                 cap = sz[1] if sz is not None and sz[0] == "i" else None
                 rid = st.new_region("heap", cap, None, "buffer %s[%s]" % (p["n"], v[1]))
                 st.env[p["d"]] = P(rid, 0)
+            if isinstance(v, tuple) and v and v[0] == "ptrs-of":
+                # a vector of v[1] pointers plus its terminating NULL slot
+                sz = None
+                for q in fn.params:
+                    if q["n"] == v[1]:
+                        sz = st.env.get(q["d"])
+                cap = (sz[1] + 1).scale(8) if sz is not None and sz[0] == "i" else None
+                rid = st.new_region("external", cap, None, "vector %s[%s+1]" % (p["n"], v[1]))
+                st.env[p["d"]] = P(rid, 0)
+        # documented preconditions on the integer parameters:  sum(coef * param) + const >= 0
+        for coefs, const in SPECS.get(fn.name, {}).get("_pre", []):
+            e = Lin.const(const)
+            ok = True
+            for q in fn.params:
+                if q["n"] in coefs:
+                    val = st.env.get(q["d"])
+                    if val is None or val[0] != "i":
+                        ok = False
+                        break
+                    e = e + val[1].scale(coefs[q["n"]])
+            if ok:
+                st.cons.append(e)
     return states
 
 
